@@ -191,7 +191,8 @@ pub fn gen_xml_text(rng: &mut Rng, fragment: bool) -> String {
     let cfg = GenCfg::swarm(rng);
     let d = absdoc::gen_doc(rng, &cfg);
     let mut coin = rng.fork();
-    let mut cdata = move || coin.pct(15);
+    let coin_pct = *coin.pick(&[5u32, 15, 15, 50]);
+    let mut cdata = move || coin.pct(coin_pct);
     if fragment {
         let mut out = String::new();
         let mut r2 = rng.fork();
@@ -199,7 +200,8 @@ pub fn gen_xml_text(rng: &mut Rng, fragment: bool) -> String {
         let mut last_text = false;
         for _ in 0..n {
             if r2.pct(40) && !last_text {
-                absdoc::esc_text(r2.pick_str(&TEXTS), &mut out);
+                // top-level character data of a fragment, also as text next to CDATA sections
+                absdoc::render_content(&absdoc::AContent::Text(r2.pick_str(&TEXTS).to_string()), &mut out, &mut cdata);
                 last_text = true;
             } else {
                 let e = absdoc::gen_elem(&mut r2, &cfg, &vec![], 1, &mut 100);
@@ -388,7 +390,7 @@ fn try_gen_op(m: &Model, rng: &mut Rng, prof: &Profile, home: &[Lid]) -> Option<
                 target: Nm::new(rng.pick_str(&PI_TARGETS), ""),
                 data: if rng.pct(60) { Some(rng.pick(&PI_DATA).to_string()) } else { None },
             },
-            8 => Op::NewAttr { name: gen_name(rng), value: rng.pick(&ATTR_VALUES).to_string() },
+            8 => Op::NewAttr { name: gen_name(rng), value: rng.pick_str(&ATTR_VALUES[..8]).to_string() },
             _ => {
                 // only the default namespace can be undeclared: a non-empty prefix is never
                 // bound to the empty namespace name (such a node has no XML representation)
@@ -426,8 +428,30 @@ fn try_gen_op(m: &Model, rng: &mut Rng, prof: &Profile, home: &[Lid]) -> Option<
                 return Some(Op::NewDocWithElement { n: e });
             }
             if fault {
-                let a = p.any(rng)?;
-                let b = p.any(rng)?;
+                let mut a = p.any(rng)?;
+                let mut b = p.any(rng)?;
+                if rng.pct(35) {
+                    // the cycle refusals: the moved node is an ancestor of (or is) the destination; half of
+                    // the time a node flanked by text on both sides, where a premature detach would show
+                    let flanked = |l: Lid| {
+                        m.kid_index(l).map_or(false, |(par, i)| {
+                            let sibs = &m.n(par).kids;
+                            i > 0 && i + 1 < sibs.len() && m.k(sibs[i - 1]) == K::Text && m.k(sibs[i + 1]) == K::Text
+                        })
+                    };
+                    let anc = if rng.pct(50) { p.of(rng, |l| m.k(l) == K::Elem && flanked(l)) } else { None };
+                    if let Some(anc) = anc.or_else(|| p.of(rng, |l| m.k(l) == K::Elem && !m.n(l).kids.is_empty())) {
+                        let below: Vec<Lid> = m.subtree(anc).into_iter().filter(|l| m.exists_live(*l)).collect();
+                        b = anc;
+                        a = *rng.pick(&below);
+                        if which == 2 || which == 3 {
+                            // sibling-style calls: the reference lies inside the moved node
+                            if a == anc {
+                                a = *rng.pick(&below);
+                            }
+                        }
+                    }
+                }
                 return Some(match which {
                     0 => Op::Append { p: a, c: b },
                     1 => Op::Prepend { p: a, c: b },
@@ -501,7 +525,17 @@ fn try_gen_op(m: &Model, rng: &mut Rng, prof: &Profile, home: &[Lid]) -> Option<
                 let name = attr_key(m, e, rng);
                 // (leading / trailing / doubled spaces: an xml:id with such a value does not survive
                 // a reparse, so C10's profile leaves them out)
-                let value = if rng.pct(10) && !prof.representable_ns_only { rng.pick_str(&[" v", "v ", "a  b", " a  b "]).to_string() } else { rng.pick(&ATTR_VALUES).to_string() };
+                let value = if rng.pct(10) && !prof.representable_ns_only { rng.pick_str(&[" v", "v ", "a  b", " a  b "]).to_string() } else { rng.pick_str(&ATTR_VALUES[..8]).to_string() };
+                if rng.pct(12) {
+                    // 2-4 updates through one view object; biased to keys that exist, then new ones
+                    let mut items = vec![(name, if rng.pct(80) { Some(value) } else { None })];
+                    for _ in 0..rng.range(1, 3) {
+                        let k = attr_key(m, e, rng);
+                        let v = if rng.pct(75) { Some(rng.pick_str(&ATTR_VALUES[..8]).to_string()) } else { None };
+                        items.push((k, v));
+                    }
+                    return Some(Op::AttrBatch { e, items });
+                }
                 match rng.below(8) {
                     0 | 1 => Op::AttrInsert { e, name, value },
                     2 => Op::AttrRemove { e, name },
@@ -519,6 +553,15 @@ fn try_gen_op(m: &Model, rng: &mut Rng, prof: &Profile, home: &[Lid]) -> Option<
             } else {
                 let prefix = ns_key(m, e, rng);
                 let uri = if !prof.representable_ns_only && rng.pct(8) { String::new() } else { rng.pick(&URIS).to_string() };
+                if rng.pct(12) {
+                    let mut items = vec![(prefix, if rng.pct(80) { Some(uri) } else { None })];
+                    for _ in 0..rng.range(1, 3) {
+                        let k = ns_key(m, e, rng);
+                        let v = if rng.pct(75) { Some(rng.pick(&URIS).to_string()) } else { None };
+                        items.push((k, v));
+                    }
+                    return Some(Op::NsBatch { e, items });
+                }
                 match rng.below(8) {
                     0 | 1 => Op::NsInsert { e, prefix, uri },
                     2 => Op::NsRemove { e, prefix },
@@ -607,7 +650,7 @@ fn try_gen_op(m: &Model, rng: &mut Rng, prof: &Profile, home: &[Lid]) -> Option<
                         Op::PISetTarget { n, target: Nm::new(rng.pick_str(&PI_TARGETS), "") }
                     }
                 }
-                K::Attr => Op::AttrNodeSetValue { n, value: rng.pick(&ATTR_VALUES).to_string() },
+                K::Attr => Op::AttrNodeSetValue { n, value: rng.pick_str(&ATTR_VALUES[..8]).to_string() },
                 K::Ns => Op::NsNodeSetNamespace { n, uri: rng.pick(&URIS).to_string() },
                 K::Doc => Op::TextContentSet { n, s: gen_text(rng) },
             })
